@@ -111,6 +111,14 @@ def CacheG.tick (c : CacheG T) : CacheG T × CacheOut :=
   (CacheG.expire ts { c with timers := (ts c.timers .tick).1 } (ts c.timers .tick).2,
    { expired := (ts c.timers .tick).2.map (·.1) })
 
+/-! The wheel runs the expiry callbacks in a goroutine of their own (`runTasks`): between the tick that takes the due
+timers out of the wheel (`CacheG.fire`) and the callbacks (`CacheG.expire`, i.e. `cache.Del(key)` per fired key) the
+user's operations go on.  `CacheG.tick` is the schedule in which nothing happens in between. -/
+
+/-- the tick itself: due timers leave the wheel; returns the fired (key, value) pairs still to be handed to `Del` -/
+def CacheG.fire (c : CacheG T) : CacheG T × List (Nat × Nat) :=
+  ({ c with timers := (ts c.timers .tick).1 }, (ts c.timers .tick).2)
+
 inductive COp where
   | set (k v ticks : Nat)
   | get (k : Nat)
